@@ -125,10 +125,20 @@ func Outline(k int) []type1.GlyphOp {
 		return []type1.GlyphOp{mv(20, 0), cv(20, 30, 40, 50, 80, 50), ln(80, 0), cl()}
 	case 7: // two contours
 		return []type1.GlyphOp{mv(0, 0), ln(100, 0), ln(50, 80), cl(), mv(200, 10), ln(200, 110), ln(260, 110), ln(260, 10), cl()}
-	case 8: // fractional coordinates on lines
-		return []type1.GlyphOp{mv(0.5, 0.25), ln(100.1, 0.25), ln(33.333, 66.667), cl()}
-	case 9: // fractional coordinates on a curve
-		return []type1.GlyphOp{mv(1.0/3, 1.0/7), cv(10.05, 20.005, 30.7, 40.123, 50.5, 45.25), ln(1.0/3, 45.25), cl()}
+	case 8: // fractional coordinates on lines, including nearly vertical and nearly horizontal ones
+		return []type1.GlyphOp{mv(0.5, 0.25), ln(100.1, 0.25), ln(100.4, 50.75), ln(150.9, 51.05), ln(33.333, 66.667), cl(),
+			mv(33.583, 120.25), ln(90.5, 120.5), ln(33.583, 130), cl()}
+	case 9: // fractional coordinates on curves.  First contour (coordinates that p/q
+		// fractions represent exactly, so the encoder's position carries no residue):
+		// curves that just miss the hv / vh forms; second contour: arbitrary fractions
+		return []type1.GlyphOp{
+			mv(100.75, 45.5),
+			cv(100.75, 60, 120, 80, 140, 80.4),       // vertical start, end tangent almost horizontal
+			cv(160, 80.7, 180, 100, 180, 120.5),      // almost horizontal start, vertical end
+			cv(180.3, 140, 200, 160.25, 220, 160.25), // almost vertical start, horizontal end
+			cv(240, 160.25, 260, 180, 260.4, 200),    // horizontal start, end tangent almost vertical
+			ln(100.75, 200), cl(),
+			mv(1.0/3, 1.0/7), cv(10.05, 20.005, 30.7, 40.123, 50.5, 45.25), ln(1.0/3, 45.25), cl()}
 	case 10: // deltas at the boundaries of the four number formats
 		return []type1.GlyphOp{mv(-1131, 108), ln(0, 0), ln(107, -107), ln(215, 1), ln(1346, -1130), ln(-70000, 70000), ln(-70000+1132, 70000-1132), cl()}
 	case 11: // a contour without segments
@@ -583,8 +593,8 @@ var zoneNames = []string{"UTC", "CET+1", "PST-8", "CEST+2", "unnamed+05:30", "un
 
 func dateFamily() Family {
 	type ymd struct {
-		y        int
-		m        time.Month
+		y           int
+		m           time.Month
 		d, h, mi, s int
 	}
 	instants := []ymd{
@@ -671,7 +681,12 @@ func Families(tier string, dom Domain) []Family {
 	}
 	if tier == "thorough" {
 		fams[3] = pathLengthFamily(120)
-		four := []int{0, 2, 3, 4, 5, 6, 7, 8, 9, 10}
+		var four []int
+		for _, o := range all {
+			if o != 12 && o != 13 { // the two long outlines stay in the 1..3-glyph families
+				four = append(four, o)
+			}
+		}
 		fams = append(fams, shapeFamily(4, four, dom))
 	}
 	return fams
